@@ -1,6 +1,7 @@
 import FV.Drv.Common
 import FV.Model.Netlist
 import FV.Model.NetlistStog
+import FV.Model.YamlText
 /-
   op table for the netlist reader / writer model (properties C04, C05).
 
@@ -10,6 +11,14 @@ import FV.Model.NetlistStog
               <mode> dump <eps> <tree>     `dumpNetlist` of the loaded netlist, as a tree
               <mode> eps <tree>            the tolerance a netlist proposes when none is defined: `d<εd> d<εA>` | inf
               <mode> ident S x<hex>        valid_identifier
+              <mode> modstog E <εd> <εA> <fixed> <hard> <list of rectangles>
+                                            `Module.create_stog()` (C06): `ok <returned> <has_stog> R <n> rect*` | err:Assert
+              T emit <tree>                 text layer (FV/Model/YamlText.lean): floats travel as `D x<hex of repr(x)>`;
+                                            reply `ok <wfRoot 0|1> x<hex of emitText tree>`
+              T parse x<hex of text>        `ok <tree>` (floats `D x<hex of the float() argument>`) | `none`
+              T yamltext x<hex>             `read_yaml`'s text / file-name test: 0 | 1
+              <mode> loadtext <eps> x<hex>  `Netlist(text)`: `parseText`, floats through `float()` (`fv`), then as `load`;
+                                            `none` when the text is outside the subset of the text model
   <eps> = `U` (tolerance undefined: the netlist proposes one) or `E <εd> <εA>`.
   Scalars in replies carry the prefix `d` so that the harness knows where a tolerance may apply.
 
@@ -95,7 +104,7 @@ def showMod (m : NL.Mod α) : String :=
   s!"mod {encStr m.name} {b01 m.terminal}{b01 m.hard}{b01 m.fixed}{b01 m.flip} C {showOptPair m.center} A {showOptPair m.aspect} "
   ++ s!"G {m.areaRegions.length}" ++ String.join (m.areaRegions.map fun p => s!" {encStr p.1} {dsc p.2}")
   ++ s!" R {m.rects.length}" ++ String.join (m.rects.map fun r => " " ++ showNRect r)
-  ++ s!" area {dsc m.area}"
+  ++ s!" area {dsc m.area} S {b01 (hasStog m)}"
 
 def showNet (e : Net α) : String :=
   s!"net {e.members.length}" ++ String.join (e.members.map fun s => " " ++ encStr s) ++ " " ++ dsc e.weight
@@ -134,8 +143,42 @@ def loadWith (sqrt : α → α) (tiny : α) (eps : Option (α × α)) (t : YVal 
     | .error e => .error e
     | .ok n => .ok (n, ms.flatMap (·.rects))
 
-def netlistOp (sqrt : α → α) (tiny : α) (op : String) (args : List String) : Option String :=
+/-- the decimal digits, sign and power of ten of a float literal `[-]digits[.digits][e±digits]`. -/
+def litParts (s : String) : Bool × Nat × Int :=
+  let cs := s.toList
+  let (neg, b) := match cs with | '-' :: r => (true, r) | _ => (false, cs)
+  let (mant, ex) := match YT.splitAt1 'e' b with | some (m, e) => (m, e) | none => (b, [])
+  let (ip, fp) := match YT.splitAt1 '.' mant with | some (i, f) => (i, f) | none => (mant, [])
+  let m : Nat := Nat.ofDigitChars 10 (ip ++ fp) 0
+  let e : Int := match ex with
+    | '-' :: d => -((Nat.ofDigitChars 10 d 0 : Nat) : Int)
+    | '+' :: d => ((Nat.ofDigitChars 10 d 0 : Nat) : Int)
+    | _ => 0
+  (neg, m, e - fp.length)
+
+/-- Python `float(s)` for the literals of the text model (observed bit-equal with CPython on 20 000 `repr`s; a test
+    instrument of the driver, not part of any theorem). -/
+def floatOfLit (s : String) : Float :=
+  if s == "inf" then 1.0 / 0.0 else if s == "-inf" then -1.0 / 0.0 else if s == "nan" then 0.0 / 0.0 else
+  let (neg, m, e) := litParts s
+  let v := Float.ofScientific m (e < 0) e.natAbs
+  if neg then -v else v
+
+/-- the exact value of a decimal literal (`Q` stream: every number is a short dyadic decimal, so this is `float(s)`). -/
+def ratOfLit (s : String) : Rat :=
+  let (neg, m, e) := litParts s
+  let v : Rat := if e ≥ 0 then ((m * 10 ^ e.toNat : Nat) : Rat) else mkRat m (10 ^ e.natAbs)
+  if neg then -v else v
+
+def netlistOp (sqrt : α → α) (tiny : α) (fv : String → α) (op : String) (args : List String) : Option String :=
   match op with
+  | "loadtext" => (runP (do let e ← pEps (α := α); let s ← pStr; pure (e, s)) args).map fun (e, s) =>
+      match YT.parseText s.toList with
+      | none => "none"
+      | some t =>
+        match loadWith sqrt tiny e (YT.mapF fv t) with
+        | .error err => showErr err
+        | .ok (n, flat) => showNetlist sqrt n flat
   | "load" => (runP (do let e ← pEps (α := α); let t ← pY; pure (e, t)) args).map fun (e, t) =>
       match loadWith sqrt tiny e t with
       | .error err => showErr err
@@ -153,6 +196,57 @@ def netlistOp (sqrt : α → α) (tiny : α) (op : String) (args : List String) 
         | none => "inf"
         | some (d, a) => s!"{dsc d} {dsc a}"
   | "ident" => (runP (pY (α := α)) args).map fun v => b01 v.validIdent
+  | "modstog" => (runP (do let e ← pEps (α := α); let fx ← pBool; let hd ← pBool; let t ← pY (α := α); pure (e, fx, hd, t)) args).map
+      fun ((e, fx, hd, t) : Option (α × α) × Bool × Bool × YVal α) =>
+      -- `Module.create_stog()` on a module holding the given rectangles (C06): returned value, `has_stog`, the list
+      match e with
+      | none => "bad-op"
+      | some (d, a) =>
+        match (match t with | .seq [] => (Except.ok [] : Except Err (List (NRect α))) | _ => parseRects fx hd t) with
+        | .error err => showErr err
+        | .ok rects =>
+          let m : NL.Mod α := { name := "M", center := none, aspect := none, terminal := false, hard := hd, fixed := fx,
+                                flip := false, areaRegions := [], rects := rects }
+          match Mod.createStog d a m with
+          | none => "err:Assert"
+          | some (b, m') =>
+            s!"ok {b01 b} {b01 (hasStog m')} R {m'.rects.length}" ++ String.join (m'.rects.map fun r => " " ++ showNRect r)
+  | _ => none
+
+/-! ### text layer (mode `T`) -/
+
+partial def pYS : P (YVal String) := do
+  let t ← tok
+  match t with
+  | "N" => pure .null
+  | "T" => pure (.bool true)
+  | "F" => pure (.bool false)
+  | "I" => do let i ← pInt; pure (.int i)
+  | "D" => do let s ← pStr; pure (.float s)
+  | "S" => do let s ← pStr; pure (.str s)
+  | "L" => do let l ← pList pYS; pure (.seq l)
+  | "M" => do let l ← pList (do let k ← pYS; let v ← pYS; pure (k, v)); pure (.map l)
+  | _ => failure
+
+partial def showYS : YVal String → String
+  | .null => "N"
+  | .bool true => "T"
+  | .bool false => "F"
+  | .int i => s!"I {i}"
+  | .float x => s!"D {encStr x}"
+  | .str s => s!"S {encStr s}"
+  | .seq l => s!"L {l.length}" ++ String.join (l.map fun v => " " ++ showYS v)
+  | .map l => s!"M {l.length}" ++ String.join (l.map fun kv => " " ++ showYS kv.1 ++ " " ++ showYS kv.2)
+
+def textOp (op : String) (args : List String) : Option String :=
+  match op with
+  | "emit" => (runP pYS args).map fun t =>
+      s!"ok {b01 (YT.wfRoot t)} {encStr (String.ofList (YT.emitText t))}"
+  | "parse" => (runP pStr args).map fun s =>
+      match YT.parseText s.toList with
+      | some t => "ok " ++ showYS t
+      | none => "none"
+  | "yamltext" => (runP pStr args).map fun s => b01 (YT.isYamlText s.toList)
   | _ => none
 
 /-- square root of a non-negative rational to 30 decimal digits (wire length at `Rat`; compared with a tolerance). -/
